@@ -204,6 +204,103 @@ def split_frames(framer, blobs):
     return [b for b in blobs]
 
 
+def rand_frame(r, framer, tid, kind=None):
+    a = r.randrange(0, 10)
+    k = kind if kind is not None else r.choice(["r", "r", "r", "w6", "w6", "w16", "w15"])
+    if k == "r":
+        pdu = L.pdu_read(r.choice([1, 3, 4]), a, r.randrange(1, 4))
+    elif k == "w6":
+        pdu = L.pdu_write_reg(a, r.randrange(65536))
+    elif isinstance(k, tuple) and k[0] == "w16":
+        pdu = L.pdu_write_regs(a, [r.randrange(65536) for _ in range(k[1])])
+    elif isinstance(k, tuple) and k[0] == "w15":
+        pdu = L.pdu_write_coils(a, [r.randrange(2) for _ in range(k[1])])
+    elif k == "w16":
+        pdu = L.pdu_write_regs(a, [r.randrange(65536) for _ in range(r.randrange(1, 4))])
+    else:
+        pdu = L.pdu_write_coils(a, [r.randrange(2) for _ in range(r.randrange(1, 12))])
+    return L.frame(framer, tid & 0xFFFF, 1, pdu)
+
+
+MENU = ["r", "w6", ("w16", 1), ("w16", 2), ("w16", 3), ("w15", 3), ("w15", 11), ("w15", 20)]
+
+
+def exact_fill(r, framer, need, tid):
+    """<= 5 frames whose lengths add up to exactly `need` (None if impossible)"""
+    lens = {}
+    for k in MENU:
+        lens.setdefault(len(rand_frame(r, framer, 0, k)), k)
+    best = {0: []}
+    for _ in range(5):
+        nxt = dict(best)
+        for tot, ks in best.items():
+            for ln, k in lens.items():
+                if tot + ln <= need and tot + ln not in nxt:
+                    nxt[tot + ln] = ks + [k]
+        best = nxt
+        if need in best:
+            return [rand_frame(r, framer, tid + i, k) for i, k in enumerate(best[need])]
+    return None
+
+
+def burst(r, framer, lo, hi, boundary, want):
+    """a pipelined burst of lo..hi bytes (reads and small writes, unit 1) such that byte `boundary` — where a
+    recv(1024) of the threaded handlers ends — falls at offset `want` of a frame ("crlf": between the CR
+    and the LF of an ASCII frame); constructed, the server is not involved"""
+    for _ in range(500):
+        tid = r.randrange(1, 20000)
+        strad = rand_frame(r, framer, tid + 500)
+        j = len(strad) - 1 if want == "crlf" else want
+        if j >= len(strad):
+            continue
+        prefix_len = boundary - j
+        frames, total = [], 0
+        while prefix_len - total > 70:
+            frames.append(rand_frame(r, framer, tid + len(frames)))
+            total += len(frames[-1])
+        fill = exact_fill(r, framer, prefix_len - total, tid + 200)
+        if fill is None:
+            continue
+        frames += fill
+        total = sum(len(f) for f in frames)
+        if j > 0 or total + len(strad) <= hi:      # offset 0 = the read ends exactly between two frames
+            frames.append(strad)
+            total += len(strad)
+        elif total < lo:
+            continue
+        while total < lo:
+            frames.append(rand_frame(r, framer, tid + 600 + len(frames)))
+            total += len(frames[-1])
+        if total <= hi:
+            return frames
+    raise RuntimeError("no burst found for %r" % ((framer, lo, hi, boundary, want),))
+
+
+BURSTS = {"quick": {"ascii": [(1000, 1100, 1024, w) for w in list(range(0, 17)) + ["crlf", "crlf"]] +
+                             [(2040, 2060, 2048, w) for w in (0, 9, "crlf")] + [(2040, 2060, 1024, "crlf")],
+                    "socket": [(1000, 1100, 1024, w) for w in range(0, 12)] + [(2040, 2060, 2048, w) for w in (0, 3, 7, 11)]}}
+BURSTS["thorough"] = {k: v * 4 for k, v in BURSTS["quick"].items()}
+
+
+def foreign_sessions(framer):
+    """multi-unit contexts hosting neither 0 nor 0xFF, requests for a unit nobody hosts (with and without
+    ignore_missing_slaves): alone, in front of and behind a served request, pipelined and one per read"""
+    out = []
+    f9 = L.frame(framer, 0x1111, 9, L.pdu_read(3, 0, 2))
+    f1 = L.frame(framer, 0x1112, 1, L.pdu_read(3, 1, 1))
+    w9 = L.frame(framer, 0x1113, 9, L.pdu_write_reg(2, 0x0BAD))
+    f2 = L.frame(framer, 0x1114, 2, L.pdu_read(3, 2, 1))
+    for units in ([1, 2], [1], [2, 17]):
+        spec = {"single": False, "units": units, "size": 16}
+        for ign in (False, True):
+            cfg = {"broadcast_enable": False, "ignore_missing_slaves": ign}
+            out.append((spec, cfg, [[(f9, [f9])]]))
+            out.append((spec, cfg, [[(f9, [f9]), (f1, [f1])], [(w9, [w9]), (f2, [f2])]]))
+            if framer != "binary":
+                out.append((spec, cfg, [[(f9 + f1 + w9, [f9, f1, w9])], [(f2, [f2])]]))
+    return out
+
+
 _CACHE = {}
 
 
@@ -218,8 +315,17 @@ def build(tier):
     for dgram in (False, True):
         fes = DGRAM if dgram else STREAM
         for framer in ["socket", "rtu", "ascii", "binary"]:
-            for _ in range(nsess if framer == "socket" else max(2, nsess // 3)):
-                spec, cfg, conns = make_session(r, framer, dgram)
+            sessions = [make_session(r, framer, dgram) for _ in range(nsess if framer == "socket" else max(2, nsess // 3))]
+            if not dgram:
+                sessions += foreign_sessions(framer)
+                # long pipelined bursts, delivered the way each front-end really reads: the threaded handlers
+                # recv(1024) at a time, asyncio/Twisted get the burst whole
+                for (lo, hi, boundary, want) in BURSTS[tier].get(framer, []):
+                    frames = burst(r, framer, lo, hi, boundary, want)
+                    sessions.append(({"single": True, "units": [0], "size": 16},
+                                     {"broadcast_enable": False, "ignore_missing_slaves": False},
+                                     [[(b"".join(frames), frames)]]))
+            for spec, cfg, conns in sessions:
                 for order in interleavings([len(c) for c in conns], cap, r):
                     res = {}
                     with watchdog("C17", {"framer": framer, "ctx": spec, "cfg": cfg, "dgram": dgram, "order": list(order),
